@@ -205,6 +205,10 @@ class ConverterFactory:
             # Quick in and out, without checking the whole mro.
             return self.registry[data_type]
 
+        if isinstance(data_type, EnumMeta) and Enum in self.registry:
+            # IntEnum, StrEnum, class Foo(str, Enum) list the mixin type first
+            return self.registry[Enum]
+
         # We tested the first, ignore the object
         for mro in data_type.__mro__[1:-1]:
             if mro in self.registry:
